@@ -67,8 +67,6 @@ let run_fmt f fn t =
   | "midpoint" -> b2 (fun x y -> okf f (e_midpoint p e x y)) (fun x y -> optf f (spec_midpoint p e x y))
   | "g_fmod" -> b2 (fun x y -> resf f (g_fmod p e x y)) (fun x y -> okf f (spec_fmod p e x y))
   | "g_remainder" -> b2 (fun x y -> resf f (g_fmod p e x y)) (fun x y -> okf f (spec_remainder p e x y))
-  | "g_min" -> b2 (fun x y -> okf f (g_min p e x y)) (fun x y -> okf f (spec_fmin p e x y))
-  | "g_max" -> b2 (fun x y -> okf f (g_max p e x y)) (fun x y -> okf f (spec_fmax p e x y))
   | "copysign_fb" -> b2 (fun x y -> okf f (e_copysign_fb p e x y)) (fun x y -> okf f (spec_copysign p e x y))
   | "lerp" ->
       let a = f.dec (next_z t) in let b = f.dec (next_z t) in let tt = f.dec (next_z t) in
@@ -96,4 +94,62 @@ let run_case op t =
   | "sweep" -> ("ok 0 -", "ok 0 -")
   | _ -> run_fmt f fn t
 
-let () = main run_case
+(* The extracted Flocq code computes on unary-binary positives and is slow; a large batch is
+   split into chunks that are evaluated by copies of this executable running in parallel
+   (plain Stdlib: chunk files + one shell command), the outputs are concatenated in order. *)
+let read_all () =
+  let acc = ref [] in
+  (try while true do acc := input_line stdin :: !acc done with End_of_file -> ());
+  List.rev !acc
+
+let () =
+  if Array.length Sys.argv > 1 && Sys.argv.(1) = "--chunk" then main run_case
+  else begin
+    let lines = Array.of_list (read_all ()) in
+    let n = Array.length lines in
+    let jobs = try int_of_string (Sys.getenv "VERIF_THREADS") with _ -> 8 in
+    let jobs = max 1 (min 32 jobs) in
+    if n < 4000 || jobs = 1 then begin
+      (* small batch: evaluate in process *)
+      let buf = Buffer.create (1 lsl 16) in
+      Array.iter (fun line ->
+        let t = toks_of_line line in
+        let op = next_str t in
+        if op = "" || op.[0] = '#' then Buffer.add_string buf "skip | na\n"
+        else begin
+          let (m, p) = try run_case op t with Not_found -> ("unknown-op", "na") in
+          Buffer.add_string buf (if m = "" then "void" else m);
+          Buffer.add_string buf " | ";
+          Buffer.add_string buf (if p = "" then "na" else p);
+          Buffer.add_char buf '\n'
+        end) lines;
+      print_string (Buffer.contents buf)
+    end else begin
+      (* interleave so that expensive ops are spread evenly: line i goes to chunk i mod jobs *)
+      let ins = Array.init jobs (fun _ -> Filename.temp_file "c16drv" ".in") in
+      let outs = Array.init jobs (fun _ -> Filename.temp_file "c16drv" ".out") in
+      let ocs = Array.map open_out ins in
+      Array.iteri (fun i l -> let oc = ocs.(i mod jobs) in output_string oc l; output_char oc '\n') lines;
+      Array.iter close_out ocs;
+      let cmd = Buffer.create 1024 in
+      Array.iteri (fun k _ ->
+        Buffer.add_string cmd (Printf.sprintf "%s --chunk < %s > %s & " (Filename.quote Sys.executable_name)
+                                 (Filename.quote ins.(k)) (Filename.quote outs.(k)))) ins;
+      Buffer.add_string cmd "wait";
+      let rc = Sys.command (Buffer.contents cmd) in
+      let ics = Array.map open_in outs in
+      let buf = Buffer.create (1 lsl 20) in
+      (try
+         for i = 0 to n - 1 do
+           Buffer.add_string buf (input_line ics.(i mod jobs));
+           Buffer.add_char buf '\n';
+           if Buffer.length buf > (1 lsl 19) then (print_string (Buffer.contents buf); Buffer.clear buf)
+         done
+       with End_of_file -> (print_string (Buffer.contents buf); Buffer.clear buf; prerr_endline "chunk output short"; exit 3));
+      print_string (Buffer.contents buf);
+      Array.iter close_in ics;
+      Array.iter Sys.remove ins;
+      Array.iter Sys.remove outs;
+      if rc <> 0 then exit 3
+    end
+  end
